@@ -53,6 +53,24 @@ func (x *Exec) lockOp(st *State, recv Val, lock bool) {
 		st.lockLog = append(st.lockLog, key)
 		return
 	}
+	// monitor invariant: whoever releases an object's mutex leaves the
+	// object's invariants established (checked here for code that is not a
+	// method of the object's own type; those are checked at their exits)
+	if recv.Loc != nil && recv.Loc.Kind == LField && x.fn != nil {
+		if named, ok := recv.Loc.ST.(*types.Named); ok && named.Obj().Pkg() != nil {
+			own := false
+			if rc := rootFn(x.fn).Signature.Recv(); rc != nil && recvTypeName(rc.Type()) == named.Obj().Name() {
+				own = true
+			}
+			if invs := x.cs.ObjInvs[named.Obj().Pkg().Path()+"."+named.Obj().Name()]; len(invs) > 0 && !own {
+				self := Val{T: recv.Loc.Base, Typ: types.NewPointer(named)}
+				env := &Env{x: x, st: st, vars: map[string]Val{"self": self}, pkg: named.Obj().Pkg()}
+				for _, c := range invs {
+					x.oblige(st, "INV", fmt.Sprintf("invariant-at-unlock(%s: %s)@%s", named.Obj().Name(), c.Src, x.posText(x.curPos)), x.evalBool(env, c.Expr), "an object's invariant must hold when its mutex is released")
+				}
+			}
+		}
+	}
 	for i, h := range st.held {
 		if h == key {
 			st.held = append(st.held[:i:i], st.held[i+1:]...)
